@@ -99,6 +99,23 @@ def build(tier="quick", seed=0):
             add(f"C14.type[{tn}, any text]", one_field(tn, lambda lst=lst: [SStr(sv), SStr(sw)] if lst else SStr(sv)), lambda w, tn=tn: {"call": "c14_value", "args": {"ftype": tn, "src": repr([w.get("s", ""), w.get("w", "")]) if tn.endswith("[]") else repr(w.get("s", ""))}},
                 wit=lambda m_, p: {"s": model_value(m_, sv), "w": model_value(m_, sw)})
 
+    # ---- addresses of ANY value and either family (assumed ipaddress contract of pyvc/models/ip.py: the text form carries the family)
+    from pyvc.models.ip import SymIP
+
+    for fam, hi in ((4, 2 ** 32), (6, 2 ** 128)):
+        for lst in (False, True):
+            tn = "net.ipaddress" + ("[]" if lst else "")
+
+            def vf(fam=fam, hi=hi, lst=lst):
+                it.assume(z3.And(x >= 0, x < hi, y >= 0, y < hi))
+                return [SymIP(fam, SInt(x)), SymIP(fam, SInt(y))] if lst else SymIP(fam, SInt(x))
+
+            def rp(w, fam=fam, lst=lst, tn=tn):
+                mk = lambda n: f"IP{fam}({int(n)})"
+                return {"call": "c14_value", "args": {"ftype": tn, "src": "[" + ", ".join([mk(w.get("x", 0)), mk(w.get("y", 0))]) + "]" if lst else mk(w.get("x", 0))}}
+
+            add(f"C14.type[{tn}, any IPv{fam} address]", one_field(tn, vf), rp, wit=lambda m_, p: {"x": model_value(m_, x), "y": model_value(m_, y)})
+
     # ---- representative values, list forms, unset
     for t in JSON_TYPES:
         srcs = [s_ for s_ in dict.fromkeys(V.VALID.get(t, []) + EXTRA.get(t, [])) if (t, s_) not in SKIP]
